@@ -38,7 +38,7 @@ def key(x):
 def krows(rows): return [[key(x) for x in r] for r in rows]
 
 
-def run(R, tier, rng):
+def run(R, tier, rng, impl_only=False):
     import numpy as np
     from npstructures import RaggedArray, RaggedShape
     tmpdir = vlib.BUILD / "tmp"; tmpdir.mkdir(parents=True, exist_ok=True)
@@ -76,6 +76,9 @@ def run(R, tier, rng):
         for dt in dts:
             per_dtype(add, ls, ids, dt, si, n, nt, tier, tmpdir)
 
+    if impl_only:
+        for (line, tag, impl, post, kind, nt, py) in cases: R.record(line + (" @" + tag if tag else ""), impl, None, None, nt, kind, py=py)
+        return
     out = oracle([c[0] for c in cases])
     for (line, tag, impl, post, kind, nt, py), o in zip(cases, out):
         m, s = parse2(o)
@@ -163,3 +166,7 @@ def per_dtype(add, ls, ids, dt, si, n, nt, tier, tmpdir):
                     ln, sz, lens, rows, rav = v
                     return [ln, sz, lens, tr(rows), trflat(rav), dt]
                 add("build " + show(ids), dt + "/save", guarded(saveload), post_sl, "save/load", nt, f"RaggedArray({vrows!r}, dtype='{dt}').save(f); RaggedArray.load(f)")
+
+
+def run_impl_only(R, tier, rng):
+    run(R, tier, rng, impl_only=True)
